@@ -110,12 +110,17 @@ func (s Socket) flush() {
 }
 
 func (s Socket) Read(p []byte) (n int, err error) {
+	// the receive loop fills the buffer under the state lock
+	s.state.m.Lock()
+
 	if !s.closed {
 	} else if s.rbuffer.Avail() == 0 {
+		s.state.m.Unlock()
 		return 0, io.EOF
 	}
 
 	n, _ = s.rbuffer.Read(p)
+	s.state.m.Unlock()
 	if n > 0 {
 		return
 	}
@@ -128,7 +133,9 @@ func (s Socket) Read(p []byte) (n int, err error) {
 		return 0, errors.New("Read timeout occurred")
 	}
 
+	s.state.m.Lock()
 	n, _ = s.rbuffer.Read(p)
+	s.state.m.Unlock()
 	return
 }
 
